@@ -8,6 +8,8 @@ import (
 	"encoding/json"
 	"fmt"
 	"math/rand"
+	"runtime"
+	"runtime/debug"
 	"sort"
 	"strings"
 
@@ -288,6 +290,16 @@ func treeShapes(c *genCtx) [][]byte {
 		add(`["` + e + `","a` + E + `","` + e + e + `"]`)
 		add(`{"` + e + `":1,"k` + E + `":"` + e + `z"}`)
 	}
+	// runs of 0..7 backslash escapes (and an escaped quote after them) at the end, at the start and in the middle of
+	// string members and keys: look-back shortcuts for "is this quote escaped" are wrong only for particular run lengths
+	for k := 0; k <= 7; k++ {
+		bs := strings.Repeat(`\\`, k)
+		for _, s := range []string{bs, "x" + bs, bs + "y", "x" + bs + `\"`, bs + `\"` + bs, bs + `\/`} {
+			add(`"` + s + `"`)
+			add(`["` + s + `",1,"` + s + `"]`)
+			add(`{"` + s + `":"` + s + `","n":[{"` + s + `k":["` + s + `"]}]}`)
+		}
+	}
 	// invalid UTF-8 in keys and values in front of / inside every kind of value, at several depths
 	for _, bad := range []string{"\xff", "\xc3", "\xe2\x82", "\xf0\x9f\x98", "\xed\xa0\x80", "\xc0\x80", "a\x80b"} {
 		for _, val := range []string{`"v"`, `1`, `null`, `true`, `[]`, `["a","b"]`, `{}`, `{"x":1}`, `[{"y":[1]}]`, `"` + bad + `"`,
@@ -419,7 +431,40 @@ func init() {
 				segs = append(segs, seg{anyBytes(p[0]), int(p[1].(float64))})
 			}
 		}
-		runTree(nil, &j, evInput(ev), segs, newStats())
-		return append([]byte{}, j.b...), nil
+		// what the reused reader does depends on its pool of child readers, which the garbage collector empties at
+		// moments replay cannot recreate: the case is re-executed with the collector switched off (the pool keeps
+		// what the warm-up left), as is, with a reader that has just been through every entry point on a nested
+		// document, and after two forced collections (the pool is empty); every execution is a real one
+		data := evInput(ev)
+		var out []byte
+		for variant := 0; variant < 4; variant++ {
+			rd := new(rjson.ValueReader)
+			old := 100
+			switch variant {
+			case 0:
+				old = debug.SetGCPercent(-1)
+				warmUp(rd)
+			case 1:
+				rd = &treeReader
+			case 2:
+				warmUp(rd)
+				rd.ReadArray([]byte(`[[{"a":[1]}],{"b":{"c":[]}}]`))
+				rd.ReadObject([]byte(`{"a":[{"b":[2]}],"c":{"d":{}}}`))
+				rd.ReadValue([]byte(`[{"e":[[3]]}]`))
+			case 3:
+				warmUp(rd)
+				runtime.GC()
+				runtime.GC()
+			}
+			runTreeWith(rd, nil, &j, data, segs, newStats())
+			if variant == 0 {
+				debug.SetGCPercent(old)
+			}
+			if variant > 0 {
+				out = append(out, '\n')
+			}
+			out = append(out, j.b...)
+		}
+		return out, nil
 	}
 }
